@@ -634,8 +634,9 @@ def run_check(cls: type, tier: str, seed: int) -> int:
         'wall_s': round(time.time() - t0, 2),
         'violations': len(reported),
     }
-    (VERIF / 'evidence').mkdir(exist_ok=True)
-    (VERIF / 'evidence' / (prop + '.json')).write_text(json.dumps(ev, indent=1, default=str) + '\n')
+    evdir = Path(os.environ.get('VERIF_EVIDENCE_DIR', str(VERIF / 'evidence')))   # scratch runs against mutated checkouts
+    evdir.mkdir(exist_ok=True, parents=True)
+    (evdir / (prop + '.json')).write_text(json.dumps(ev, indent=1, default=str) + '\n')
 
     for kid, what in sorted(known_hit.items()):
         print('KNOWN-FINDING: property=%s %s' % (prop, what))
